@@ -54,6 +54,7 @@ type targetPanic struct {
 // Options configure one harness exploration.
 type Options struct {
 	MaxUnwind   int // symbolic back-edge budget per loop site per frame
+	MaxSplit    int // case-split bound for symbolic allocation sizes (0 = MaxUnwind)
 	MaxSteps    int
 	MaxPaths    int
 	AllocLimit  func(inputLen int) int64 // nil = no allocation metering
@@ -106,6 +107,7 @@ type Exec struct {
 	branchRepeat int
 	spec      int
 	specMark  []int
+	specLog   []specWrite
 	Poisoned  int
 	Prog *ssa.Program
 	C    *smt.Ctx
@@ -628,7 +630,11 @@ func (x *Exec) panicString(p *targetPanic) string {
 }
 
 func (x *Exec) runtimeError(msg string) Value {
-	return IfaceV{T: types.Typ[types.String], V: Str{S: "runtime error: " + msg}}
+	// runtime errors implement error (recover().(error) succeeds natively)
+	if x.Prog.ImportedPackage("errors") == nil {
+		return IfaceV{T: types.Typ[types.String], V: Str{S: "runtime error: " + msg}}
+	}
+	return x.mkErrorFresh("runtime error: " + msg)
 }
 
 func (x *Exec) rtPanic(msg string) {
